@@ -180,7 +180,23 @@ def need_flags():
     rec = _calls_in("stepup/core/workflow.py", "Workflow.reconcile_targets")
     src, node = extract.find_def("stepup/core/workflow.py", "Workflow.reconcile_targets")
     text = ast.unparse(node)
-    out.append(("scan/need_flags/reconcile_flags_stale_targets", "UPDATE step SET _check_after = 1 WHERE _implied_need = " in text, ""))
-    out.append(("scan/need_flags/reconcile_flags_producers", "UPDATE step SET _check_after = 1 WHERE node = ?" in text
-                and "RECONCILE_TARGET_DIRS" in text, ""))
+    # the SQL texts of the function, layout-insensitive (string constants and f-strings with their holes as `?`)
+    sqls = []
+    for n in ast.walk(node):
+        if isinstance(n, ast.Call) and isinstance(n.func, ast.Attribute) and n.func.attr == "execute" and n.args:
+            a = n.args[0]
+            if isinstance(a, ast.Constant) and isinstance(a.value, str):
+                raw = a.value
+            elif isinstance(a, ast.JoinedStr):
+                raw = "".join(v.value if isinstance(v, ast.Constant) else "?" for v in a.values)
+            else:
+                continue
+            try:
+                sqls.append(sqlfront.normalize(raw))
+            except sqlfront.SQLError:
+                pass
+    out.append(("scan/need_flags/reconcile_flags_stale_targets",
+                any(q.startswith("UPDATE step SET _check_after = 1 WHERE _implied_need = ?") for q in sqls), str(sqls)))
+    out.append(("scan/need_flags/reconcile_flags_producers",
+                any(q == "UPDATE step SET _check_after = 1 WHERE node = ?" for q in sqls) and "RECONCILE_TARGET_DIRS" in text, str(sqls)))
     return out
